@@ -17,10 +17,10 @@ T2 = {'A', 'B'}
 BASES2 = {'A': set(), 'B': {'A'}}
 
 OWN = {
-    'C01': {'ret', 'get', 'get_component', 'has', 'comps', 'exists', 'entities', 'wb_tables'},
-    'C02': {'log', 'is_handler', 'self_handler', 'enabled', 'wb_queue_len', 'ret'},
-    'C05': {'exists', 'entities', 'comps', 'log', 'ret', 'get'},
-    'C07': {'processors', 'get_processor', 'pworld', 'pprio', 'log', 'ret'},
+    'C01': {'ret', 'get', 'get_component', 'has', 'comps', 'exists', 'entities', 'wb_tables', 'bystander'},
+    'C02': {'log', 'is_handler', 'self_handler', 'enabled', 'wb_queue_len', 'ret', 'bystander'},
+    'C05': {'exists', 'entities', 'comps', 'log', 'ret', 'get', 'bystander'},
+    'C07': {'processors', 'get_processor', 'pworld', 'pprio', 'log', 'ret', 'bystander'},
 }
 
 
